@@ -1,0 +1,38 @@
+//go:build verif
+
+// Package verifhook gives the verification harness in-process access to the
+// entry points of internal/cli and internal/iotools, which Go's internal rule
+// hides from other modules. It only exists under the build tag "verif" and
+// adds nothing to the library: every name is an alias.
+package verifhook
+
+import (
+	"github.com/invopop/gobl/internal/cli"
+	"github.com/invopop/gobl/internal/iotools"
+)
+
+// Option, request and response types of the command line operations.
+type (
+	ParseOptions     = cli.ParseOptions
+	BuildOptions     = cli.BuildOptions
+	SignOptions      = cli.SignOptions
+	CorrectOptions   = cli.CorrectOptions
+	ReplicateOptions = cli.ReplicateOptions
+	BulkOptions      = cli.BulkOptions
+	BulkRequest      = cli.BulkRequest
+	BulkResponse     = cli.BulkResponse
+	Error            = cli.Error
+)
+
+// Entry points of the command line operations.
+var (
+	Build            = cli.Build
+	Sign             = cli.Sign
+	Correct          = cli.Correct
+	Replicate        = cli.Replicate
+	Validate         = cli.Validate
+	Verify           = cli.Verify
+	Bulk             = cli.Bulk
+	WrapError        = cli.WrapError
+	CancelableReader = iotools.CancelableReader
+)
